@@ -17,7 +17,7 @@
     ..._partial: for l2_lambda = 0 linear policies, and Clusters over linear policies, can raise from np.linalg.inv inside a per-arm
     task after earlier arms were updated - for l2_lambda = 0 only: for l2_lambda > 0 the matrix is never singular (C02,
     ridge_fits_never_singular); the branch is modelled, and for l2_lambda = 0 the property is REFUTED on the model with a concrete witness
-    (finding D22, reproduced on the code: LinAlgError after the first arm was refitted). Ill-typed arguments are outside the model and covered by the 22-class relation. *)
+    (finding D22, reproduced on the code: LinAlgError after the first arm was refitted). Ill-typed arguments are outside the model and covered by the 25-class relation. *)
 From Coq Require Import List ZArith Bool Arith QArith Qcanon Permutation.
 From MW Require Import Num Assoc AssocFacts Rng Par CF CFInv CFClean CFForget CFSpec Matrix Lin Warm WarmInv Nbr NbrFacts NbrIndep LshFacts Clu Tree CellFacts Mab FacadeCF FacadeArms MoreFacts NumLaws CFAlg Sim Extra QcInst OrderFacts ExpIrrel LinInv FacadeLin LpInv NbrInv CluTreeInv FacadeAll ToyFacts C09All C10All LinForget LinSim MatrixFacts GaussJordan LinSpec NbrIndepGen CluIndep C17Lin WarmIdem C14More LshScale TreeLeaf Rename PopSpec CopyFacts StatFacts CluBatch LinWarm C17Singular LinPD LinPDFacade Series.
 Import ListNotations.
